@@ -5,7 +5,7 @@
 package match
 
 // Every function under contract in this package also serves the properties that depend on the whole package.
-//@ package-props C01 C04 C06 C08
+//@ package-props C01 C04 C06 C08 C12
 
 // notified[c]: how many times client c's Update callback has been invoked.
 // visitedB[b]: trie node b has been entered by update.
